@@ -420,7 +420,10 @@ class Assembler:
 
             max_alignment = section.alignment.get(main_block, 0)
 
-            for extra_block in extra_blocks:
+            # Fold the empty blocks into the main block last-to-first: each
+            # block's CFI directives are put in front of what the main block
+            # has so far, so this keeps them in the order they were written.
+            for extra_block in reversed(extra_blocks):
                 assert isinstance(extra_block, gtirb.CodeBlock)
                 assert not extra_block.size
                 assert extra_block not in self._state.block_types
